@@ -46,6 +46,9 @@ func init() {
 	register("C03", "sets", 5, simC03Sets)
 	register("C03", "laws", 1, simC03Laws)
 	register("C10", "protocol", 1, simC10Protocol)
+	register("C19", "walk", 4, simC19Walk)
+	register("C19", "apply", 2, simC19Apply)
+	register("C19", "pathsets", 2, simC19PathSets)
 }
 
 func pickSim(prop string, index uint64) simEntry {
